@@ -60,6 +60,7 @@ def handleObs (x impl : Json) : R Reply := do
       (if decide (10 * len ≥ 9 * adv.maxObservationLength) then ["len>=90%-limit"] else []) ++
       (if o.performable.isEmpty && o.proposals.isEmpty && o.blockHistory.isEmpty then ["empty-observation"] else []) ++
       (if !withinCap then ["beyond-onchain-cap"] else []) ++
+      (if o.performable.any (fun r => ctx.utg r.upkeepID == .other) then ["third-upkeep-type"] else []) ++
       (if lenExcused && !decide (len ≤ adv.maxObservationLength) then ["oversize-outside-quantifier"] else [])
     pure { agree := mv == accepts, specModel := true, specImpl := ok,
            diff := if mv == accepts then "" else s!"model validObservation={mv} peer: '{peerErr}'",
